@@ -498,7 +498,7 @@ def write_evidence(ctx, level_text=''):
         violations=len(ctx.violations),
     )
     os.makedirs(os.path.join(VERIF, 'evidence'), exist_ok=True)
-    json.dump(ev, open(os.path.join(VERIF, 'evidence', ctx.prop + '.json'), 'w'), indent=1)
+    json.dump(ev, open(os.path.join(VERIF, 'evidence', ctx.prop + os.environ.get('VERIF_EVIDENCE_SUFFIX', '') + '.json'), 'w'), indent=1)
 
 def demangle(names):
     if not names:
